@@ -16,6 +16,7 @@ import (
 	"time"
 
 	"github.com/sirupsen/logrus"
+	"github.com/stretchr/testify/assert"
 	"github.com/stretchr/testify/require"
 
 	"github.com/form3tech-oss/f1/v2/internal/metrics"
@@ -191,6 +192,12 @@ func (p prog) exec(t *f1testing.T, as []act) {
 			}
 		case 5:
 			p.emit(int64(2 * a.arg))
+			if a.arg%3 != 2 {
+				// an assertion that holds, made through the handle's own assertion object: it changes
+				// nothing, whichever handle (setup, iteration, cleanup) it is made on
+				t.Require().True(true)
+				assert.NotNil(t, t)
+			}
 		}
 	}
 }
